@@ -13,3 +13,18 @@ RC=$?
 git -C /repo worktree remove --force $WT
 V=$(grep -c "^VIOLATION" /verif/.work/seedruns/$S/$P.$T.log)
 echo "$S check=$P tier=$T exit=$RC violation_lines=$V :: $(grep '^VIOLATION\|^OK\|^infrastructure' /verif/.work/seedruns/$S/$P.$T.log | head -2 | tr '\n' ' ')"
+# record the outcome next to the seed (committed): which check, tier, exit code, first reported failing input
+python3 - "$S" "$P" "$T" "$RC" <<'PY'
+import json,sys,os,re,subprocess
+s,p,t,rc=sys.argv[1:5]
+log=open(f'/verif/.work/seedruns/{s}/{p}.{t}.log').read()
+first=[l.strip()[:300] for l in log.split('\n') if l.strip().startswith(('failing input:','no longer checks:'))][:2]
+viol=[l.strip() for l in log.split('\n') if l.startswith('VIOLATION')][:1]
+f=f'/verif/seeded/{s}/detection.json'
+d=json.load(open(f)) if os.path.exists(f) else {}
+d[f'{p}.{t}']={"exit":int(rc),"violation_line":viol[0] if viol else None,"first_reports":first,
+  "verif_commit":subprocess.check_output(['git','-C','/verif','rev-parse','--short','HEAD']).decode().strip(),
+  "how":"tools/run_seed.sh: patch applied to a scratch worktree of /repo HEAD put first on PYTHONPATH, check run from /verif"}
+json.dump(d,open(f,'w'),indent=1)
+PY
+
